@@ -352,7 +352,43 @@ def oracleExpect (c : CaseIn) (chunks : List Bytes) (rkv : KV) : Option String :
   let chkBT : Option String := match c.kv.lookup "xbt" with
     | none => none
     | some _ => if bevs.contains "b." then some (c.camp ++ ":stream-truncated-inside-a-row-reported-as-complete") else none
+  -- `xtail`: the output ends with these frames (the session went on and answered the final probe);
+  -- `xne`: the number of ErrorResponses in the whole output
+  let chkTail : Option String := match c.kv.lookup "xtail" with
+    | none => none
+    | some want =>
+      let w := want.splitOn ","
+      let g := notes.drop (notes.length - w.length)
+      if g = w then none else some (c.camp ++ ":xtail:got=" ++ ",".intercalate g ++ ":want=" ++ want)
+  let chkNE : Option String := match c.kv.lookup "xne" with
+    | none => none
+    | some want =>
+      let n := notes.countP (·.startsWith "E")
+      if toString n = want then none else some (c.camp ++ ":error-responses:got=" ++ toString n ++ ":want=" ++ want)
+  -- `xg`: the first CopyInResponse announces this overall format and these per-column codes
+  let chkG : Option String := match c.kv.lookup "xg" with
+    | none => none
+    | some want =>
+      match frames.find? (·.1 = ch 'G') with
+      | none => none
+      | some (_, b) =>
+        match b with
+        | f :: r =>
+          match rd16 r with
+          | some (n, r') =>
+            let rec codes : Nat → Bytes → List String
+              | 0, _ => []
+              | k + 1, bs => match rd16 bs with
+                | some (v, bs') => toString v :: codes k bs'
+                | none => ["?"]
+            let g := toString f.toNat ++ ":" ++ ".".intercalate (codes n r')
+            if g = want then none else some (c.camp ++ ":CopyInResponse-formats:got=" ++ g ++ ":want=" ++ want)
+          | none => some (c.camp ++ ":CopyInResponse-malformed")
+        | [] => some (c.camp ++ ":CopyInResponse-malformed")
   (chk "xp" afterZ).orElse fun _ =>
+  chkG.orElse fun _ =>
+  chkTail.orElse fun _ =>
+  chkNE.orElse fun _ =>
   chkEv.orElse fun _ =>
   chkB.orElse fun _ =>
   chkBT.orElse fun _ =>
